@@ -566,7 +566,39 @@ func (m *Machine) intrinsic(s *State, f *Frame, x *ssa.Call, name string, callee
 		m.stubs["encoding/json Marshal/Unmarshal as box"]++
 		if pt, ok := dst.typ.(*types.Pointer); ok && sl.obj != 0 {
 			if bx, ok := s.heap[sl.obj].v.(BoxV); ok && bx.typ == "json:"+pt.Elem().String() {
-				s.store(dst.v.(Ptr), bx.v)
+				nv := bx.v
+				// `omitempty`: a zero-valued field tagged omitempty is absent from the document, so decoding leaves
+				// whatever the destination already holds in that field
+				if st, isS := pt.Elem().Underlying().(*types.Struct); isS {
+					if bs, ok1 := bx.v.(StructV); ok1 {
+						if cur, ok2 := s.load(dst.v.(Ptr)).(StructV); ok2 && len(cur.f) == st.NumFields() && len(bs.f) == st.NumFields() {
+							out := StructV{f: append([]Value(nil), bs.f...)}
+							for i := 0; i < st.NumFields(); i++ {
+								if !strings.Contains(st.Tag(i), "omitempty") {
+									continue
+								}
+								if m.isZeroValue(bs.f[i]) {
+									out.f[i] = cur.f[i]
+									m.stubs["encoding/json: omitempty field absent from the document keeps the destination's value"]++
+								} else if bv, okb := bs.f[i].(Sc); okb && bv.t != nil && !bv.t.konst {
+									// symbolic scalar: absent exactly when it is zero / false
+									if cv, okc := cur.f[i].(Sc); okc && cv.t != nil && cv.t.w == bv.t.w {
+										var isZero *Term
+										if bv.t.w == 0 {
+											isZero = c.Not(bv.t)
+										} else {
+											isZero = c.Cmp("=", bv.t, c.BV(0, bv.t.w))
+										}
+										out.f[i] = Sc{c.Ite(isZero, cv.t, bv.t)}
+										m.stubs["encoding/json: omitempty field absent from the document keeps the destination's value"]++
+									}
+								}
+							}
+							nv = out
+						}
+					}
+				}
+				s.store(dst.v.(Ptr), nv)
 				f.env[x] = IfaceV{}
 				return nil, true
 			}
@@ -1220,4 +1252,21 @@ func fnPkgPath(fn *ssa.Function) string {
 		return o.Pkg.Pkg.Path()
 	}
 	return ""
+}
+
+// isZeroValue: concrete zero scalar / empty string / nil pointer, slice or map (what encoding/json's omitempty drops)
+func (m *Machine) isZeroValue(v Value) bool {
+	switch x := v.(type) {
+	case Sc:
+		return x.t != nil && x.t.konst && x.t.cv == 0
+	case StrV:
+		return x.box == nil && len(x.b) == 0
+	case Ptr:
+		return x.obj == 0
+	case SliceV:
+		return x.obj == 0 || x.len == 0
+	case nil:
+		return true
+	}
+	return false
 }
